@@ -210,6 +210,22 @@ def renderings(draw, toks):
     swap = {"(": "{", ")": "}", "{": "(", "}": ")"}
     if any(t in swap for t in toks):
         rs.append({"kind": "optional/bracket-style", "argv": [" ".join(swap.get(t, t) for t in toks)]})
+        # ... and each matching pair on its own (a call inside a call may use the other style)
+        stack, pairs = [], []
+        for i, t in enumerate(toks):
+            if t in ("(", "{"):
+                stack.append(i)
+            elif t in (")", "}") and stack:
+                pairs.append((stack.pop(), i))
+        if len(pairs) >= 2:
+            for _ in range(2):
+                flip = set()
+                for a, b in pairs:
+                    if draw(st.booleans()):
+                        flip |= {a, b}
+                if flip and len(flip) < 2 * len(pairs):
+                    rs.append({"kind": "optional/bracket-style-per-pair",
+                               "argv": [" ".join(swap[t] if i in flip else t for i, t in enumerate(toks))]})
     # explicit asc after an order key without direction
     if "order" in [t.lower() for t in toks]:
         oi = [t.lower() for t in toks].index("order")
